@@ -346,3 +346,47 @@ func c06EveryCount(c *Ctx, index int) {
 		_ = enc[len(enc)-1]
 	})
 }
+
+// ---------------------------------------------------------------- C03
+
+// c03EveryCount: the scalar queries (whose drivers binary-search / gallop over the chunk keys) and the Checksum
+// clauses (Clone, serialize/deserialize round trip) for every chunk count.
+func c03EveryCount(c *Ctx, index int) {
+	n, b, m, ok := chunkCountCase(c, index)
+	if !ok {
+		return
+	}
+	nargs := 6
+	if n > 5000 {
+		nargs = 3
+	}
+	queryBattery(c, &BM{B: b, M: m}, nargs)
+	if c.Failed() {
+		return
+	}
+	c.Guard("query/Checksum", func() {
+		cs := b.Checksum()
+		if g := b.Clone().Checksum(); g != cs {
+			c.Fail("query/Checksum/clone", "%d chunks: Checksum changed by Clone: %d vs %d", n, cs, g)
+			return
+		}
+		buf, err := b.ToBytes()
+		if err != nil {
+			c.Fail("query/Checksum/ToBytes", "%d chunks: ToBytes failed: %v", n, err)
+			return
+		}
+		rt := roaring.New()
+		if _, err := rt.ReadFrom(bytes.NewReader(buf)); err != nil {
+			c.Fail("query/Checksum/ReadFrom", "%d chunks: ReadFrom failed on the library's own bytes: %v", n, err)
+			return
+		}
+		if g := rt.Checksum(); g != cs {
+			c.Fail("query/Checksum/roundtrip", "%d chunks: Checksum changed by a serialize/deserialize round trip: %d vs %d", n, cs, g)
+			return
+		}
+		if !rt.Equals(b) || !b.Equals(rt) {
+			c.Fail("query/Equals/roundtrip", "%d chunks: the round-tripped bitmap is not Equal to the original", n)
+		}
+		c.Eval(4)
+	})
+}
